@@ -28,6 +28,11 @@ func genC08(t *rapid.T, kind sdsl.Kind) c08Case {
 	c.Pre = sdsl.GenBlocks(t, kind, 0, 2, 5, 10)
 	maxOrd := rapid.SampledFrom([]uint64{2, 5, 5, 12}).Draw(t, "maxord")
 	n := rapid.IntRange(0, 8).Draw(t, "nops")
+	if rapid.IntRange(0, 4).Draw(t, "bigblock") == 0 {
+		// long blocks with few distinct ordinals: many ties issued out of order (sorting algorithms change behaviour with length)
+		n = rapid.IntRange(13, 70).Draw(t, "nbig")
+		maxOrd = rapid.SampledFrom([]uint64{1, 2, 4}).Draw(t, "maxordbig")
+	}
 	focus := ""
 	if rapid.IntRange(0, 3).Draw(t, "focus") > 0 {
 		focus = rapid.SampledFrom(sdsl.Keys[:4]).Draw(t, "focuskey") // several ops on one key, ordinals in any order
